@@ -834,6 +834,12 @@ fn configs(prop: &str, thorough: bool) -> Vec<Value> {
             // H-b: two writers of one key || reader reading twice
             v.push(json!({"harness": "rw", "name": "b-two-puts-vs-gets", "height": 1, "template": [],
                 "threads": [[["put", "a", "1"]], [["put", "a", "2"]], [["get", "a"], ["get", "a"]]], "limits": lim()}));
+            // a single put || a two-key batch || a scan: the order in which two writers enter the
+            // wait list must be the order of their sequence numbers, or the faster one publishes
+            // the slower one's half-inserted batch
+            v.push(json!({"harness": "rw", "name": "h-put-vs-batch-vs-scan", "height": 1, "template": [],
+                "threads": [[["put", "x", "1"]], [["batch", [["a", "1"], ["b", "1"]]]], [["scan"]]],
+                "batch_keys": ["a", "b"], "batch_value": "1", "limits": lim()}));
             // put then delete by another thread || reader
             v.push(json!({"harness": "rw", "name": "b2-put-del-vs-get-scan", "height": 1, "template": [["put", "a", "0"]], "initial": {"a": "0"},
                 "threads": [[["del", "a"]], [["put", "a", "2"]], [["get", "a"], ["scan"]]], "limits": lim()}));
